@@ -96,8 +96,55 @@ M = [
     # 11. scanline: middle statement loses its `?`
     ('scanline_fill_semicolon', 'src/primitives/common/styled_scanline.rs',
      'self.fill().draw(target, fill_color)?;', 'let _unused = self.fill().draw(target, fill_color);'),
+    # benign refactor (must stay OK): two border fills moved into a new propagating helper
+    ('BENIGN_new_helper', 'src/primitives/rectangle/styled.rs',
+     '''                target.fill_solid(&left_border, stroke_color)?;
+                target.fill_solid(&right_border, stroke_color)?;''',
+     '''                draw_sides(target, &left_border, &right_border, stroke_color)?;'''),
+    # 12. the swallowing is hidden in a helper that does not return a Result
+    ('helper_without_result', 'src/primitives/rectangle/styled.rs',
+     'target.fill_solid(&top_border, stroke_color)?;',
+     'fill_quietly(target, &top_border, stroke_color);'),
+    # 13. loop turned into an iterator chain whose closure swallows
+    ('closure_for_each', 'src/primitives/polyline/styled.rs',
+     '''    for line in ScanlineIterator::new(polyline, style) {
+        let rect = line.to_rectangle();
+
+        if !rect.is_zero_sized() {
+            target.fill_solid(&rect, stroke_color)?;
+        }
+    }
+
+    Ok(())''',
+     '''    ScanlineIterator::new(polyline, style)
+        .map(|line| line.to_rectangle())
+        .filter(|rect| !rect.is_zero_sized())
+        .for_each(|rect| {
+            target.fill_solid(&rect, stroke_color).ok();
+        });
+
+    Ok(())'''),
+    # 14. nested fn inside the drawing function swallows
+    ('nested_fn', 'src/primitives/common/scanline.rs',
+     '''        target.fill_solid(
+            &Rectangle::new(Point::new(self.x.start, self.y), Size::new(width, 1)),
+            color,
+        )
+    }''',
+     '''        fn quiet<T: DrawTarget>(t: &mut T, r: &Rectangle, c: T::Color) -> bool {
+            t.fill_solid(r, c).is_ok()
+        }
+        quiet(
+            target,
+            &Rectangle::new(Point::new(self.x.start, self.y), Size::new(width, 1)),
+            color,
+        );
+        Ok(())
+    }'''),
 ]
-PRE = {'polyline_thick_continue': ('for line in ScanlineIterator::new(polyline, style) {', 'let mut first = None;\n    for line in ScanlineIterator::new(polyline, style) {')}
+PRE = {'BENIGN_new_helper': ('fn dot_positions_with_dotted_corners(', 'fn draw_sides<D: DrawTarget>(t: &mut D, l: &Rectangle, r: &Rectangle, c: D::Color) -> Result<(), D::Error> {\n    t.fill_solid(l, c)?;\n    t.fill_solid(r, c)\n}\n\nfn dot_positions_with_dotted_corners('),
+       'helper_without_result': ('fn dot_positions_with_dotted_corners(', 'fn fill_quietly<D: DrawTarget>(t: &mut D, r: &Rectangle, c: D::Color) {\n    t.fill_solid(r, c).ok();\n}\n\nfn dot_positions_with_dotted_corners('),
+       'polyline_thick_continue': ('for line in ScanlineIterator::new(polyline, style) {', 'let mut first = None;\n    for line in ScanlineIterator::new(polyline, style) {')}
 
 
 def sh(cmd, **kw):
@@ -131,9 +178,12 @@ def main():
             open(p, 'w').write(mut)
             r = sh('timeout 1500 ./check C04', cwd=V, env=dict(os.environ, EG_REPO=S))
             lines = [l for l in r.stdout.splitlines() if l.startswith(('VIOLATION', 'OK', 'KNOWN'))]
-            ok = r.returncode == 1 and any(l.startswith('VIOLATION') for l in lines)
+            if name.startswith('BENIGN'):
+                ok = r.returncode == 0 and any(l.startswith('OK') for l in lines)
+            else:
+                ok = r.returncode == 1 and any(l.startswith('VIOLATION') for l in lines)
             caught += ok
-            print('MUTATION %-36s exit=%d %s' % (name, r.returncode, 'CAUGHT' if ok else 'MISSED'))
+            print('MUTATION %-36s exit=%d %s' % (name, r.returncode, ('CAUGHT' if ok else 'MISSED') if not name.startswith('BENIGN') else ('STAYS-OK' if ok else 'FALSE-ALARM')))
             for l in lines[:2]:
                 print('    ' + l)
                 m = re.search(r'replay=(\S+)', l)
